@@ -106,6 +106,45 @@ example : okSeq false [([], .word 'c' ['d', 's']), ([], .sym '('), ([], .word 'a
       ([.comment [' ', 'c'], .ws ' '], .word 'a' ['n', 'd']), ([.ws '\t'], .word 'b' []), ([], .sym ')')] = true := by
   decide +kernel
 
+/-- the smallest case a change to the `#` branch can break: a comment that directly abuts a word,
+    followed by a word in column 0 — the comment alone separates them (the tokeniser finalises the
+    pending symbol when it meets `#`) -/
+theorem comment_separates (f g : Char) (more more' body : List Char)
+    (h1 : (Word.word f more).ok = true) (h2 : (Word.word g more').ok = true) (hb : body.all (· != '\n') = true) :
+    tokenise (String.ofList (f :: more ++ '#' :: body ++ '\n' :: g :: more')) =
+      .ok [mkTok (String.ofList (f :: more)), mkTok (String.ofList (g :: more'))] := by
+  have h := tokenise_render [([], .word f more), ([.comment body], .word g more')] ⟨[], none⟩
+    (by simp [okSeq, Filler.ok, h1, h2, hb, Word.isWord]) (by simp [Tail.ok])
+  simpa [render, gapChars, Filler.chars, Word.chars, Tail.chars, Word.text] using h
+
+/-- `not#x⏎b` is the two tokens `not`, `b` (not the identifier `notb`) -/
+example : (tokenise "not#x\nb").toOption = some [mkTok "not", mkTok "b"] := by decide +kernel
+
+/-- layout-independence of the whole parse: `create_rules` looks at its texts only through the
+    tokeniser, so files that tokenise alike — by `layout_irrelevant`: the same written tokens under
+    any two layouts — give the same rules or the same error, whatever the earlier rules, aliases,
+    signatures, categories and multipliers -/
+theorem layout_irrelevant_rules (cfg : Cfg) : ∀ (texts texts' : List String) (rules : List Rule) (aliases : Aliases),
+    texts.map tokenise = texts'.map tokenise →
+    createRules cfg texts rules aliases = createRules cfg texts' rules aliases
+  | [], [], _, _, _ => rfl
+  | [], _ :: _, _, _, h => by simp at h
+  | _ :: _, [], _, _, h => by simp at h
+  | t :: ts, t' :: ts', rules, aliases, h => by
+    simp only [List.map_cons, List.cons.injEq] at h
+    have ih := layout_irrelevant_rules cfg ts ts'
+    simp only [createRules, parseText, h.1]
+    cases aliases.forM fun a => verifyAliasName cfg rules a.1 with
+    | error e => rfl
+    | ok _ =>
+      cases tokenise t' with
+      | error e => rfl
+      | ok toks =>
+        simp only [bind, Except.bind]
+        cases parseTokens cfg rules aliases toks with
+        | error e => rfl
+        | ok v => exact ih v.1 v.2 h.2
+
 /-! ### precedence and grouping (thm 2, 3): for every syntax tree of the documented grammar — any
     nesting depth, any mix of operators — its token rendering is parsed into the condition
     objects that tree denotes, and their C01 meaning is the grammar's denotation. -/
